@@ -78,6 +78,8 @@ package stun
 //@   props C01 C08 C12 C03 C04 C05 C06
 //@   requires m != nil
 //@   assigns m.Type, m.Length, m.TransactionID, m.Attributes, mem(m.Attributes)
+//@   allocates
+//@   ensures region(m.Attributes) == old(region(m.Attributes)) || fresh(m.Attributes)
 //@   ensures result == nil ==> DecodedViews(m)
 //@   ensures result == nil ==> len(m.Raw) >= 20 && be32(m.Raw, 4) == 0x2112A442
 // allocation clause of C01: the only growing allocation is the attribute list, and it holds at most one record per 4 input bytes
@@ -1289,6 +1291,8 @@ package stun
 //@   props C03
 //@   requires m != nil
 //@   assigns m.Type, m.Length, m.TransactionID, m.Attributes, mem(m.Attributes)
+//@   allocates
+//@   ensures region(m.Attributes) == old(region(m.Attributes)) || fresh(m.Attributes)
 //@   assert result == nil ==> forall(i, 0, len(m.Attributes), be16(m.Raw, start(m.Raw, i) + 2) == WLens(m)[i])
 //@   use result == nil ==> forall(k, 0, len(m.Attributes) + 1, vpos_start(m.Raw, WLens(m), len(m.Attributes), k), vpos(WLens(m), k))
 //@   use mtype_encode_decode(be16(m.Raw, 0))
